@@ -172,7 +172,7 @@ def run(ch, ctx, fault=None):
         indefinite = ch.bool("indefinite", 0.3)
         n = None if indefinite else ch.int("n", 2, 6)
         stream_len = ch.int("stream", 0, 8) if indefinite else 0
-        loops = ch.pick("loops", (-1, 1, 2, 3))
+        loops = ch.pick("loops", (-1, 1, 2, 3, -2, -7))
         size = (ch.int("w", 1, 4), ch.int("h", 1, 3))
         dynamic = ch.bool("dynamic", 0.3)
         dur0 = "DYNAMIC" if dynamic else ch.int("dur", 1, 50)
